@@ -109,20 +109,33 @@ def run(ctx):
 
     # ---- the specification itself: every schedule x every snapshot
     t0 = time.time()
-    econsts = dict(base, Waits={6} if quick else {6, 10}, UPeers=set() if quick else {3})
+    # (1) small configuration, one worker, all vacuity witnesses recorded
+    econsts = dict(base, Waits={6}, UPeers=set()) if quick else dict(base, Waits={6}, Modes={"ddl_nometa"})
+    wit = WITNESSES + ([] if quick else ["Witness_UnknownIgnored"])
     cfg = tlc.write_cfg(os.path.join(ctx.scratch, "agree.cfg"), spec="Spec", constants=econsts, invariants=INVARIANTS,
                         properties=() if quick else ("Terminates",), constraints=["RecordWitnesses"],
                         postcondition="PrintWitnesses", deadlock=False)
-    res = tlc.check_model("ControlAgree", cfg, ctx.scratch, workers=1, timeout=1500 if quick else 3000)
-    ctx.add_tlc(res, "exhaustive: all schedules x all snapshots (%s)" % ("safety" if quick else "safety + termination"))
+    res = tlc.check_model("ControlAgree", cfg, ctx.scratch, workers=1, timeout=3000)
+    ctx.add_tlc(res, "exhaustive: all schedules x all snapshots (%s, witnesses)" % ("safety" if quick else "safety + termination"))
     ctx.note("constants", {k: (sorted(v) if isinstance(v, set) else v) for k, v in econsts.items()})
     ctx.note("exhaustive", True)
     if res.violation:
         ctx.violation("TLC: %s violated in ControlAgree.tla" % res.invariant,
                       replay={"trace": [s for _, s in res.trace()]}, signature="spec:%s" % res.invariant)
         return
-    rc.witnesses_in(res, WITNESSES + ([] if quick else ["Witness_UnknownIgnored"]), "ControlAgree")
-    ctx.note("vacuity_witnesses_reached", len(WITNESSES) + (0 if quick else 1))
+    rc.witnesses_in(res, wit, "ControlAgree")
+    ctx.note("vacuity_witnesses_reached", len(wit))
+    if not quick:
+        # (2) the larger configuration: unknown peer, wait 0.5 s, three modes (safety)
+        bconsts = dict(base, Waits={10})
+        bcfg = tlc.write_cfg(os.path.join(ctx.scratch, "agree_big.cfg"), spec="Spec", constants=bconsts, invariants=INVARIANTS,
+                             deadlock=False)
+        bres = tlc.check_model("ControlAgree", bcfg, ctx.scratch, timeout=6000)
+        ctx.add_tlc(bres, "exhaustive: all schedules x all snapshots, wait 0.5 s, unknown peer, 3 modes (safety)")
+        if bres.violation:
+            ctx.violation("TLC: %s violated in ControlAgree.tla" % bres.invariant,
+                          replay={"trace": [s for _, s in bres.trace()]}, signature="spec:%s" % bres.invariant)
+            return
     timing["tlc_exhaustive"] = round(time.time() - t0, 1)
 
     # ---- code -> spec: real runs on scripted timelines, validated by TLC
